@@ -35,6 +35,8 @@ func tagOf(f *frame.Frame) string {
 		return m.ErrorMessage
 	case *message.SyntaxError:
 		return m.ErrorMessage
+	case message.Error: // the fatal ones of the fatal-ending scenario
+		return m.GetErrorMessage()
 	case *message.SchemaChangeEvent:
 		return m.Keyspace
 	case *message.StatusChangeEvent:
